@@ -7,3 +7,7 @@ func verifMap(string, *mapVal, string) {}
 func verifEv(string, string) {}
 
 func verifVar(string, string, value) {}
+
+func verifDeclare(*scope, string, value) {}
+
+func verifGet(*scope, string, value) {}
